@@ -2,7 +2,7 @@
    ExtrOcamlBasic only: bool, option, list, prod, unit, sumbool, sumor map to
    OCaml's; N, Z, positive, nat stay the extracted inductives. *)
 Require Import ExtrOcamlBasic.
-From BMC Require Import Base Prim Layers Layers2 SpecLayers Hmac Aes Serialize SpecRequests Packet Conn Handshake SpecBmc Dispatch.
+From BMC Require Import Base Prim Layers Layers2 SpecLayers Hmac Aes Serialize SpecRequests Packet Conn Handshake SpecBmc Proc Dispatch.
 Extraction Language OCaml.
 Extraction "model.ml"
   Impl.bcd_decode Impl.ones Impl.twos Impl.analog_parser Impl.checksum
@@ -19,6 +19,8 @@ Extraction "model.ml"
   SpecParse.open_session_request SpecParse.rakp_message_1 SpecParse.rakp_message_3 SpecParse.command_code SpecParse.command_kind
   Bmc.accept Bmc.open_session Bmc.rakp1 Bmc.rakp3 ser_request ser_opensessionreq ser_rakp1 ser_rakp3 ser_message ser_v2session ser_v1session ser_aescbc ser_rmcp
   sessionless_command_packet payload_packet session_command_packet receive
+  parse_records retrieve_cipher_suites retrieve_chunks get_entity_instances get_sensor_info walk new_sensor_reader read_sensor
+  serve_chunks serve_dcmi serve_sdr convert_reading
   put_le32 cbc_encrypt cbc_decrypt run_decode aes_dec aes_enc integrity_sign hmac_alg auth_params
   decode_rmcp rmcp_zero show_rmcp decode_selector selector_zero show_selector
   decode_v1session v1session_zero show_v1session decode_message message_zero show_message
